@@ -781,3 +781,8 @@ def finish(ctx):
     ctx.need(key, 50)
   ctx.need("samples_compared_exact", 5000)
   ctx.need("samples_compared_toleranced", 5000)
+
+
+# extension family (second round of seeded changes), see props/c20_x.py
+from props import c20_x as _x, ext as _ext
+_ext.install(globals(), _x)
